@@ -28,7 +28,12 @@ pub fn spec(mode: InputMode, parts: &[String], input: Vec<u8>) -> ExecSpec {
     let p: Vec<&str> = parts.iter().map(|s| s.as_str()).collect();
     let a = argv(mode.clone(), &p);
     let ar: Vec<&str> = a.iter().map(|s| s.as_str()).collect();
-    ExecSpec::new(&ar, mode, input)
+    let mut sp = ExecSpec::new(&ar, mode, input);
+    // budgets grow with the input (also for runs that keep the canonical schedule): a step per packet and
+    // message, wall clock 20 s per MB on top of the base
+    sp.step_budget = sp.step_budget.saturating_add(sp.input.len() as u64 * 2);
+    sp.timeout_ms = sp.timeout_ms.saturating_add((sp.input.len() as u64 / 1_000_000) * 20_000);
+    sp
 }
 
 pub fn pick_input_mode(rng: &mut Rng) -> InputMode {
